@@ -580,6 +580,16 @@ recompute_factor(cholmod_sparse *A, cholmod_factor *L, long *iPerm,
 
 		if ( Lp[Lnext[Lrows[i]]] - Lp[Lrows[i]] < nz ) {
 			cholmod_l_reallocate_column(Lrows[i], nz, L, c);
+			/*
+			 * Growing a column can exhaust the space of the factor,
+			 * in which case CHOLMOD moves its index and value
+			 * arrays: fetch the pointers again.
+			 */
+			Lp =    (long*)(L->p);
+			Lnz =   (long*)(L->nz);
+			Li =    (long*)(L->i);
+			Lnext = (long*)(L->next);
+			Lx =    (double*)(L->x);
 #if 0
 			printf("L->nz[%ld] <= %ld, L_F->nz[%d] = %ld\n", 
 		    	    Lrows[i], Lp[Lnext[Lrows[i]]] - Lp[Lrows[i]],
